@@ -282,7 +282,7 @@ class Sweep(object):
         self.cases.append((kind, sn, fn or '', cn or '', sp, obs[0], obs[1], obs[2]))
 
     # -- positive aliases -------------------------------------------------------------------------
-    def check_read(self, parent, pk, pname, mode, sp_base, expect, kind, sn, fn, cn, cls, pick):
+    def check_read(self, parent, pk, pname, mode, sp_base, expect, kind, sn, fn, cn, cls, pick, make=None, adder=None):
         """All letter cases of one spelling must designate `expect` (child name, or (comp, sub))."""
         variants = case_variants(sp_base, self.rng)
         for i, (cname, sp) in enumerate(variants):
@@ -298,6 +298,25 @@ class Sweep(object):
                           expected=list(want), observed=list(obs))
             if i == pick:
                 self.model_case(kind, sn, fn, cn, sp, obs, cls)
+                if mode != 'positional' and (kind != 1 or pick == 0):
+                    # the method itself, on the spelling as it is (correspondence only; a third of the field level)
+                    try:
+                        fo = (0, parent.find_child_reference(sp)['name'], '')
+                    except Exception as ex:   # noqa
+                        fo = (exc_code(ex), '', '')
+                    if all(is_model_str(x) for x in (sp, fo[1])):
+                        self.cases.append((kind, sn, fn or '', cn or '', sp, fo[0], fo[1], fo[2], 1))
+            if adder is not None and mode != 'positional':
+                # the add_field / add_component / add_subcomponent API reaches a child by name too
+                try:
+                    made = getattr(make(), adder)(sp).name
+                except Exception as ex:   # noqa
+                    made = 'EXC ' + type(ex).__name__
+                self.counts['adds'] = self.counts.get('adds', 0) + 1
+                if made != expect:
+                    self.fail('alias-resolves-elsewhere', 'a spelling of a child does not create that child through '
+                              '%s()' % adder, parent_kind=pk, parent=pname, mode=adder, case=cname, spelling=sp,
+                              expected=expect, observed=made)
         if len(self.samples) < 4 and self.rng.random() < .0005:
             self.samples.append({'version': self.v, 'parent': '%s %s' % (pk, pname), 'mode': mode,
                                  'spellings': [sp for _, sp in variants], 'designates': expect})
@@ -402,11 +421,13 @@ class Sweep(object):
         c = make()
         for k, (row, cl) in enumerate(zip(rows, classes)):
             pick = self.rng.randrange(3)
-            self.check_read(c, 'component', cname, 'name', row[0], row[0], 2, sn, fname, cname, Component, pick)
+            self.check_read(c, 'component', cname, 'name', row[0], row[0], 2, sn, fname, cname, Component, pick,
+                            make, 'add_subcomponent')
             for _, sp in case_variants(row[0], self.rng):
                 self.write_delete(make, 'component', cname, 'name', sp, ('c', key, k), row[0])
             if cl == 'ok':
-                self.check_read(c, 'component', cname, 'long', longs[k], row[0], 2, sn, fname, cname, Component, pick)
+                self.check_read(c, 'component', cname, 'long', longs[k], row[0], 2, sn, fname, cname, Component, pick,
+                                make, 'add_subcomponent')
                 for _, sp in case_variants(longs[k], self.rng):
                     self.write_delete(make, 'component', cname, 'long', sp, ('c', key, k), row[0])
         dt = cref[2]
@@ -470,12 +491,13 @@ class Sweep(object):
             pick = self.rng.randrange(3)
             mp = pick if k1 else -1
             pos = '%s_%d' % (fname, j + 1)
-            self.check_read(f, 'field', fname, 'name', cname, cname, 1, sn, fname, None, Field, mp)
+            self.check_read(f, 'field', fname, 'name', cname, cname, 1, sn, fname, None, Field, mp, make, 'add_component')
             self.check_read(f, 'field', fname, 'positional', pos, cname, 1, sn, fname, None, Field, mp)
             self.write_delete(make, 'field', fname, 'positional', case_variants(pos, self.rng)[pick][1],
                               ('f', skey, j), cname)
             if cl == 'ok':
-                self.check_read(f, 'field', fname, 'long', longs[j], cname, 1, sn, fname, None, Field, mp)
+                self.check_read(f, 'field', fname, 'long', longs[j], cname, 1, sn, fname, None, Field, mp, make,
+                                'add_component')
             if ('fw', skey, j) not in self.canon:      # name / long name writes: once per datatype row
                 self.canon[('fw', skey, j)] = True
                 for _, sp in case_variants(cname, self.rng):
@@ -512,30 +534,33 @@ class Sweep(object):
                 self.negative(make, 'field', fname, sp.lower(), why, 1, sn, fname, None, Field, model=not standalone)
 
     # -- one segment -------------------------------------------------------------------------------------
-    def sweep_segment(self, sn, ref):
+    def sweep_segment(self, sn, ref, make=None):
         v = self.v
         lib = self.lib
+        synthetic = make is not None
         rows = ref[1]
         names = [r[0] for r in rows]
         longs = [long_of(r[1]) for r in rows]
         classes = classify_rows(names, longs, self.res[Segment])
         self.tally['seg'] = [a + b for a, b in zip(self.tally['seg'], tally_of(classes))]
-        make = lambda: Segment(sn, version=v)
+        if make is None:
+            make = lambda: Segment(sn, version=v)
         s = make()
         before = dump(s)
         for i, (row, cl) in enumerate(zip(rows, classes)):
             fname, fref = row[0], row[1]
             pick = self.rng.randrange(3)
-            self.check_read(s, 'segment', sn, 'name', fname, fname, 0, sn, None, None, Segment, pick)
+            self.check_read(s, 'segment', sn, 'name', fname, fname, 0, sn, None, None, Segment, pick, make, 'add_field')
             for _, sp in case_variants(fname, self.rng):
                 self.write_delete(make, 'segment', sn, 'name', sp, ('s', sn, i), fname)
             if cl == 'ok':
-                self.check_read(s, 'segment', sn, 'long', longs[i], fname, 0, sn, None, None, Segment, pick)
+                self.check_read(s, 'segment', sn, 'long', longs[i], fname, 0, sn, None, None, Segment, pick, make,
+                                'add_field')
                 for _, sp in case_variants(longs[i], self.rng):
                     self.write_delete(make, 'segment', sn, 'long', sp, ('s', sn, i), fname)
             self.sweep_field(sn, fname, fref)
             std = lib.FIELDS.get(fname)
-            if std is not None and std is not fref and std != fref:
+            if std is not None and std is not fref and std != fref and not synthetic:
                 self.sweep_field(sn, fname, std, standalone=True)
         if dump(s) != before:
             self.fail('alias-read-changes-parent', 'reading children by their names changed the segment',
@@ -593,6 +618,71 @@ class Sweep(object):
                 'samples': self.samples, 'tally': self.tally}
 
 
+
+# ------------------------------------------------------------------------------------------------
+# synthetic references (the shape of message-profile structures): collisions the shipped tables do not
+# contain -- a long name equal to ANOTHER child's HL7 name (the HL7 name must win), shared long names
+# (exempt; the model says which child the code picks), long names equal to attribute names
+
+SYN_SUBS = (('HD_1', ('leaf', None, 'IS', 'HD_2', None, -1), (0, 1), 'CMP'),
+            ('HD_2', ('leaf', None, 'ST', 'X_SUB', None, -1), (0, 1), 'CMP'),
+            ('HD_3', ('leaf', None, 'ID', 'DATATYPE', None, -1), (0, 1), 'CMP'),
+            ('HD_4', ('leaf', None, 'ID', 'TWIN', None, -1), (0, 1), 'CMP'),
+            ('HD_5', ('leaf', None, 'ID', 'TWIN', None, -1), (0, 1), 'CMP'))
+SYN_COMPS = (('CX_1', ('leaf', None, 'ST', 'CX_2', None, -1), (0, 1), 'CMP'),
+             ('CX_2', ('leaf', None, 'ST', 'B_COMP', None, -1), (0, 1), 'CMP'),
+             ('CX_3', ('leaf', None, 'ST', 'TWIN', None, -1), (0, 1), 'CMP'),
+             ('CX_4', ('leaf', None, 'ST', 'TWIN', None, -1), (0, 1), 'CMP'),
+             ('CX_5', ('leaf', None, 'ST', 'NAME', None, -1), (0, 1), 'CMP'),
+             ('CX_6', ('sequence', SYN_SUBS, 'HD', 'SIXTH_COMP', None, -1), (0, 1), 'CMP'))
+SYN_SEG = ('sequence', (
+    ('PID_1', ('leaf', None, 'ST', 'PID_2', None, -1), (0, 1), 'FIE'),
+    ('PID_2', ('leaf', None, 'ST', 'SECOND_FIELD', None, -1), (0, 1), 'FIE'),
+    ('PID_3', ('leaf', None, 'ST', 'TWIN', None, -1), (0, 1), 'FIE'),
+    ('PID_4', ('leaf', None, 'ST', 'TWIN', None, -1), (0, -1), 'FIE'),
+    ('PID_5', ('leaf', None, 'ST', 'VALUE', None, -1), (0, 1), 'FIE'),
+    ('PID_6', ('sequence', SYN_COMPS, 'CX', 'SIXTH', None, -1), (0, 1), 'FIE')))
+SYN_VERSION = '2.5'
+
+
+def coq_ref(ref):
+    o = lambda x: 'None' if x is None else '(Some %s)' % coq_str(x)
+    info = None
+    if len(ref) == 6:
+        info = '(mk_info %s %s %s (%d)%%Z)' % (o(ref[2]), o(ref[3]), o(ref[4]), ref[5])
+    if ref[0] == 'leaf':
+        return '(SLeaf %s)' % info
+    rows = '; '.join('SIn %s %s %s (%d)%%Z (%d)%%Z' % (r[3], coq_str(r[0]), coq_ref(r[1]), r[2][0], r[2][1])
+                     for r in ref[1])
+    return '(SSeqIn %s [%s] %s)' % ('true' if ref[0] == 'choice' else 'false', rows,
+                                   '(Some %s)' % info if info else 'None')
+
+
+def synthetic_sweep(seed):
+    """The whole per-segment sweep on a Segment built from SYN_SEG; also queries of the exempt
+    spellings, for the correspondence only."""
+    sw = Sweep(SYN_VERSION, seed)
+    make = lambda: Segment('PID', version=SYN_VERSION, reference=SYN_SEG)
+    sw.sweep_segment('PID', SYN_SEG, make=make)
+    s = make()
+    for sp in ('twin', 'TWIN', 'VALUE', 'Value', 'pid_2', 'PID_1'):
+        sw.model_case(0, 'PID', None, None, sp, sw.observe(s, sp)[0], Segment)
+    f = Field('PID_6', version=SYN_VERSION, reference=SYN_SEG[1][5][1])
+    for sp in ('twin', 'NAME', 'Name', 'cx_2', 'pid_6_2', 'pid_6_6_1', 'PID_6_6_2', 'pid_6_6_5'):
+        sw.model_case(1, 'PID', 'PID_6', None, sp, sw.observe(f, sp)[0], Field)
+    c = Component('CX_6', version=SYN_VERSION, reference=SYN_COMPS[5][1])
+    for sp in ('twin', 'DATATYPE', 'hd_2', 'datatype'):
+        sw.model_case(2, 'PID', 'PID_6', 'CX_6', sp, sw.observe(c, sp)[0], Component)
+    return sw
+
+
+def synthetic_file(sw):
+    files = model_files(SYN_VERSION, sw.cases, 10 ** 9)
+    name, text, flat = files[0]
+    text = text.replace('Definition run_seg (g :', 'Definition syn_ref : sref := %s.\nDefinition run_seg (g :' % coq_ref(SYN_SEG))
+    text = text.replace('let s := parent_segment t sn in', 'let s := mk_segment t sn (Some syn_ref) in')
+    return ('c14_%d_synthetic' % os.getpid(), text, flat)
+
 def sweep_worker(args):
     v, seed, limit, chunk, nchunks = args
     t0 = time.time()
@@ -611,14 +701,24 @@ From HL7 Require Gen.%(mod)s.
 Import ListNotations. Open Scope bs_scope.
 Definition t := Gen.%(mod)s.tables.
 Definition lv := TOLERANT.
-(* a query: spelling, expected outcome code (0 child / 1 grandchild / 2 attribute / 100 + exception), names *)
-Definition q := (str * nat * str * str)%%type.
+(* a query: spelling, mode (0 = attribute access, 1 = find_child_reference on the spelling as it is),
+   expected outcome code (0 child / 1 grandchild / 2 attribute / 100 + exception), names *)
+Definition q := (str * nat * nat * str * str)%%type.
 Definition agree (r : result target) (c : q) : bool :=
-  match c with (_, code, n1, n2) =>
+  match c with (_, _, code, n1, n2) =>
     match target_obs r with (code', n1', n2') => Nat.eqb code code' && streqb n1 n1' && streqb n2 n2' end end.
-Definition sp (c : q) : str := fst (fst (fst c)).
+Definition sp (c : q) : str := fst (fst (fst (fst c))).
+Definition mode (c : q) : nat := snd (fst (fst (fst c))).
+Definition find (p : parent) (n : str) : result target :=
+  match (match p with
+         | PSeg s => seg_find_child_reference t s n
+         | PField f => field_find_child_reference t f n
+         | PComp c => comp_find_child_reference t c n
+         end) with Ok e => Ok (TChild e) | Err x => Err x end.
 Definition ask {P} (p : result P) (mk : P -> parent) (c : q) : bool :=
-  agree (match p with Ok x => resolve t lv (mk x) (sp c) | Err e => Err e end) c.
+  agree (match p with
+         | Ok x => if Nat.eqb (mode c) 0 then resolve t lv (mk x) (sp c) else find (mk x) (sp c)
+         | Err e => Err e end) c.
 (* parents are built once per group (call by value) *)
 Definition run_comp (f : result field) (g : str * list q) : list bool :=
   let c := match f with Ok f' => parent_component t lv f' (fst g) | Err e => Err e end in
@@ -643,7 +743,7 @@ Fixpoint failing (n : nat) (l : list bool) : list nat :=
 
 
 def q_term(c):
-    return '(%s, %d%%nat, %s, %s)' % (coq_str(c[4]), c[5], coq_str(c[6]), coq_str(c[7]))
+    return '(%s, %d%%nat, %d%%nat, %s, %s)' % (coq_str(c[4]), c[8] if len(c) > 8 else 0, c[5], coq_str(c[6]), coq_str(c[7]))
 
 
 def model_files(v, cases, per_file):
@@ -773,6 +873,11 @@ def main(argv=None):
             total[k] = total.get(k, 0) + x
     run.log('implementation sweep: %s; %d oracle failures; cpu %.0fs' % (
         total, len(run.failures), sum(byv[v]['seconds'] for v in VERSIONS)))
+    syn = synthetic_sweep(run.seed)
+    for f in syn.failures:
+        f['data']['synthetic_reference'] = True
+        run.fail(f['kind'], f['what'], **f['data'])
+    run.log('synthetic references: %d queries, %d oracle failures' % (len(syn.cases), len(syn.failures)))
     # ---- exempt rows: counted from the tables here, pinned in the obligations there
     exempt = {}
     for v in VERSIONS:
@@ -800,6 +905,9 @@ def main(argv=None):
         for name, text, flat in model_files(v, cases, 4000):
             files.append((name, text))
             index.append((v, flat))
+    sname, stext, sflat = synthetic_file(syn)
+    files.append((sname, stext))
+    index.append((SYN_VERSION + ' synthetic reference', sflat))
     run.log('model side: %d queries of versions %s in %d case files' % (sum(len(i[1]) for i in index), versions, len(files)))
     evaluated = 0
     outs = coq_eval_many(files, timeout=1500)
@@ -822,7 +930,8 @@ def main(argv=None):
     neg = [c for v in versions for c in byv[v]['cases'] if c[5] >= 100][:3]
     samples += [{'version': versions[0] if versions else None, 'negative_query': list(c)} for c in neg]
     run.finish({
-        'evaluations': total.get('reads', 0) + total.get('writes', 0) + total.get('deletes', 0) + total.get('negatives', 0),
+        'evaluations': total.get('reads', 0) + total.get('writes', 0) + total.get('deletes', 0) + total.get('negatives', 0)
+        + total.get('adds', 0),
         'distinct_nontrivial': total.get('aliases_nontrivial', 0),
         'exhaustive': True,
         'rule': 'exhaustive: every version x segment x field row x component row x subcomponent row of the tables; '
